@@ -507,7 +507,37 @@ def replay_force_branches():
     return worst > 1e-3
 
 
-@obligation(PID, "h", title="Force.forward hands back minus the gradient in every branch: back-propagated (default and with '2nd_grad', where the graph is kept) and analytical — for arbitrary gradient values")
+def replay_force_repeat(second_grad):
+    """public API, water/AM1: evaluate, displace the atoms in place, evaluate the SAME Molecule again; the second force must
+    equal the force of a fresh Molecule at the displaced geometry"""
+    from seqm.Molecule import Molecule
+    from seqm.ElectronicStructure import Electronic_Structure
+    from seqm.seqm_functions.constants import Constants
+    from .common import quiet
+
+    sp = torch.tensor([[8, 1, 1]])
+    xyz = torch.tensor([[[0.03, 0.02, 0.01], [0.96, 0.13, 0.07], [-0.21, 0.91, 0.23]]])
+    par = {"method": "AM1", "scf_eps": 1e-9, "scf_converger": [1], "sp2": [False]}
+    if second_grad:
+        par["2nd_grad"] = True
+    with quiet():
+        m = Molecule(Constants(), par, xyz.clone(), sp)  # (Molecule records the element list in the dictionary)
+        m.verbose = False
+        es = Electronic_Structure(par)
+        es(m)
+        with torch.no_grad():
+            m.coordinates.add_(torch.tensor([[[0.02, -0.01, 0.0], [0.0, 0.03, -0.02], [0.01, 0.0, 0.02]]]))
+        es(m)
+        f2 = m.force.detach().clone()
+        m3 = Molecule(Constants(), par, m.coordinates.detach().clone(), sp)
+        m3.verbose = False
+        Electronic_Structure(par)(m3)
+    d = (f2 - m3.force.detach()).abs().max().item()
+    print("replay repeated force evaluation ('2nd_grad'=%s): second evaluation on the same Molecule vs a fresh one: max difference %.3e eV/A" % (second_grad, d))
+    return d > 1e-5
+
+
+@obligation(PID, "h", title="Force.forward hands back minus the gradient in every branch: back-propagated (default and with '2nd_grad', where the graph is kept) and analytical — for arbitrary gradient values — and leaves the gradient buffer of the coordinates empty, so that a repeated evaluation on the same Molecule does not accumulate")
 def ob_h(ob):
     import types
     from seqm.basics import Force
@@ -546,6 +576,18 @@ def ob_h(ob):
                     return
                 raise HarnessError("force-branch counterexample did not reproduce (%s)" % lab)
             ob.verdict(v, lab)
+            if not analytical:
+                # the gradient buffer must be left empty: autograd accumulates into coordinates.grad, so anything left behind
+                # is added to the next evaluation of the same Molecule (optimiser, MD loop, Hessian driver)
+                left = X.grad
+                lab2 = "h:create_graph=%s gradient buffer cleared after the evaluation" % create_graph
+                cleared = left is None or (isinstance(left, SymTensor) and smt.prove(z3.And(*[left.a[k] == 0 for k in np.ndindex(left.a.shape)]), [], lab2, "lra", 20)[0] == "unsat") or (torch.is_tensor(left) and not isinstance(left, SymTensor) and float(left.abs().max()) == 0.0)
+                if not cleared:
+                    if replay_force_repeat(create_graph):
+                        ob.violation("Force.forward leaves the gradient in coordinates.grad (branch '2nd_grad'=%s): the next evaluation on the same Molecule returns the sum of the old and the new gradient" % create_graph, {"module": "harness.C01", "func": "replay_force_repeat", "args": {"second_grad": create_graph}})
+                        return
+                    raise HarnessError("stale gradient buffer did not reproduce (%s)" % lab2)
+                ob.discharged(lab2)
     x = z3.Real("x")
     expect_refuted(ob, x == -x, [], "twin: a dropped minus sign is noticed", "lra")
 
